@@ -24,7 +24,7 @@ real-time LOWER bounds only (timers never fire early), never upper bounds, so ma
 """
 import json
 
-from lib.units import SeqUnit, McUnit, TraceUnit
+from lib.units import SeqUnit, McUnit, TraceUnit, Inconclusive
 
 # what the guard that rejected an event demands (appended to the generic message of TraceUnit)
 EXPLAIN = {
@@ -49,8 +49,9 @@ EXPLAIN = {
                       "addressed to another client, or broadcast after its onDisconnect",
     ("HubRun", "sync"): "10 s after the last call: a dontDrop message accepted while a (still connected) client was registered did not reach it, "
                         "or a client whose connection ended was not removed (hub goroutine stuck?)",
-    ("HubRun", "be"): "BroadcastMsg result: nil while the hub is not running / ErrWebsocketServerUnavailable while it runs",
-    ("HubRun", "qe"): "Client.Send result: nil for a removed client or a stopped hub",
+    ("HubRun", "be"): "BroadcastMsg result: nil while the hub is not running / ErrWebsocketServerUnavailable while it runs / 'timeout': the "
+                      "call did not return within 25 s (hub goroutine stuck?)",
+    ("HubRun", "qe"): "Client.Send result: nil for a removed client or a stopped hub / 'timeout': the call did not return within 25 s",
     ("HubRun", "re"): "Run returned with clients that were not removed (or without a cancellation)",
     ("HubRun", "disc"): "onDisconnect without onConnect, twice, or after Run returned",
     ("HubRun", "conn"): "onConnect twice or after Run returned",
@@ -64,7 +65,28 @@ class X4Trace(TraceUnit):
     def run(self, ctx):
         before = len(ctx.violations)
         try:
-            super().run(ctx)
+            # nhooyr.io/websocket v1.8.10 (the hub's dependency) can panic with "WaitGroup is reused before previous Wait has
+            # returned" when one goroutine closes a connection while another one notices its end (Conn.close adds to the
+            # WaitGroup that Close / CloseNow wait on).  The driver recovers this on the dialling side; should the process
+            # die of it on the hub's side, the recorder is run again (once) with another seed instead of blaming the hub.
+            retry = False
+            try:
+                super().run(ctx)
+            except Inconclusive as e:
+                if "WaitGroup is reused" not in str(e):
+                    raise
+                retry = True
+            lib = [v for v in ctx.violations[before:] if "WaitGroup is reused" in v["what"]]
+            if lib:
+                ctx.violations[:] = [v for v in ctx.violations if v not in lib]
+                retry = True
+            if retry:
+                ctx.bump("recorder_retries_after_websocket_library_panic")
+                saved, ctx.seed = ctx.seed, ctx.seed + 1000
+                try:
+                    super().run(ctx)
+                finally:
+                    ctx.seed = saved
         finally:
             for v in ctx.violations[before:]:
                 parts = v["sig"].split(":")
@@ -84,14 +106,14 @@ class X4Trace(TraceUnit):
 def units(ctx):
     return [
         # ---- core/eventticker ----
-        SeqUnit("ext4", "EvTicker", traces=(60, 60), thorough_traces=(600, 80), walks=(100, 25), thorough_walks=(1000, 40)),
+        SeqUnit("ext4", "EvTicker", lts_kind="lts2" if ctx.thorough else "ltsq", traces=(60, 60), thorough_traces=(600, 80), walks=(100, 25), thorough_walks=(1000, 40)),
         McUnit("ext4", "EvTicker", "phantom", name="EvTicker:ctl-phantom-count", expect="SizeMatches"),
         McUnit("ext4", "EvTickerImpl", "", name="EvTickerImpl", thorough_cfgkind="thorough"),
         McUnit("ext4", "EvTickerImpl", "exists_only", name="ctl-evticker-exists-only", expect="OneChain"),
         McUnit("ext4", "EvTickerImpl", "unlocked_start", name="ctl-evticker-unlocked-start", expect="OneChain"),
         McUnit("ext4", "EvTickerImpl", "unlocked_resched", name="ctl-evticker-unlocked-resched", expect="SizeMatches"),
         McUnit("ext4", "TickRun", "", name="TickRun:spec"),
-        X4Trace("ext4", "TickRun", "x4tick", args=["-traces", 30], thorough_args=["-traces", 400, "-forced", 12], sut="TickRun"),
+        X4Trace("ext4", "TickRun", "x4tick", args=["-traces", 60], thorough_args=["-traces", 400, "-forced", 12], sut="TickRun"),
         # ---- runtime/timeutil ----
         McUnit("ext4", "TimeTickerImpl", "", name="TimeTickerImpl"),
         McUnit("ext4", "TimeTickerImpl", "add_in_goroutine", name="ctl-ticker-add-in-goroutine", expect="GracefulMeans"),
@@ -103,5 +125,5 @@ def units(ctx):
         McUnit("ext4", "HubImpl", "no_exit_case", name="ctl-hub-unregister-no-exit-case", expect="HubNotStuck", deadlock=True),
         McUnit("ext4", "HubRun", "", name="HubRun:spec", thorough_cfgkind="thorough"),
         McUnit("ext4", "HubRun", "two", name="HubRun:spec2"),
-        X4Trace("ext4", "HubRun", "x4hub", args=["-traces", 24], thorough_args=["-traces", 240], sut="HubRun"),
+        X4Trace("ext4", "HubRun", "x4hub", args=["-traces", 36], thorough_args=["-traces", 240], sut="HubRun"),
     ]
